@@ -1328,6 +1328,10 @@ class Exec:
                 if outcome:
                     if len(names) == 1:
                         self.locals[a0.id] = self.retype(cur, self._ty_of_classname(names[0]))
+                    elif cur.ty.kind == "union":
+                        keep = [a for a in cur.ty.args if any(self._ty_matches_class(a, n) for n in names)]
+                        if keep:
+                            self.locals[a0.id] = self.retype(cur, T.union(*keep))
                 else:
                     if cur.ty.kind == "union":
                         rest = [
